@@ -452,6 +452,35 @@ func TestC06(t *testing.T) {
 			rec(N - 2)
 		}
 	}
+	// wide and deep: many sibling blocks, and long chains of nested ones (what counts is what is open, not how much there is)
+	if env.Shard == 1%env.NShards {
+		oi, ei, ti := symIndex("open", "if"), symIndex("end", "if"), symIndex("text", "")
+		ofor, efor := symIndex("open", "for"), symIndex("end", "for")
+		for _, k := range []int{60, 101, 150, 400} {
+			var wide []int
+			for i := 0; i < k; i++ {
+				if i%2 == 0 {
+					wide = append(wide, oi, ti, ei)
+				} else {
+					wide = append(wide, ofor, ti, efor)
+				}
+			}
+			runSeq(wide)
+			runSeq(wide[:len(wide)-1]) // the last block left open
+		}
+		for _, d := range []int{41, 101, 150} {
+			var deep []int
+			for i := 0; i < d; i++ {
+				deep = append(deep, oi)
+			}
+			deep = append(deep, ti)
+			for i := 0; i < d; i++ {
+				deep = append(deep, ei)
+			}
+			runSeq(deep)
+			runSeq(deep[1:]) // one end tag too many
+		}
+	}
 	seqs.Sub.Note("the enumeration up to length %d (22^0+...+22^%d sequences) is complete over all shards", N, N)
 
 	col.Rapid(seqs.Sub, env.PerShard(env.Pick(40000, 1000000)), func(t *rapid.T) {
